@@ -472,6 +472,7 @@ func doHunt(seed int64, n int) {
 	r := rand.New(rand.NewSource(seed))
 	bg.HangTimeout = 2 * time.Second
 	rev, hangs := 0, 0
+	nonInitN, nonInitPicks := 0, 0
 	for i := 0; i < n; i++ {
 		in := bg.Adversarial(r, *searchM, *searchT, *searchP)
 		run := bg.RunSticky(in)
@@ -491,8 +492,37 @@ func doHunt(seed int64, n int) {
 				break
 			}
 		}
+		// nobody starts empty: every member claims (highest generation) a partition that exists and that it subscribes to
+		nonInit := true
+		for _, m := range run.In.Members {
+			okm := false
+			if m.UD != nil && m.UD.HasGen && m.UD.Gen == 5 {
+				for _, c := range m.UD.Parts {
+					if run.In.Subscribes(m.ID, c.T) {
+						for _, t := range run.In.Topics {
+							if t.Name == c.T && int(c.P) < len(t.Parts) {
+								okm = true
+							}
+						}
+					}
+				}
+			}
+			if !okm {
+				nonInit = false
+			}
+		}
+		if nonInit {
+			nonInitN++
+			if run.NPicks > 0 {
+				nonInitPicks++
+				if nonInitPicks <= 2 {
+					b, _ := json.Marshal(run.In)
+					fmt.Println("NONINIT-REDIRECT", string(b))
+				}
+			}
+		}
 	}
-	fmt.Println("hunt done", n, "reverts", rev, "hangs", hangs)
+	fmt.Println("hunt done", n, "reverts", rev, "hangs", hangs, "non-initializing", nonInitN, "of which with redirect", nonInitPicks)
 }
 
 var enumM = flag.Int("enum", 0, "enumeration mode: number of members (2 topics s,t; all subscriptions x all forged owners)")
